@@ -6,6 +6,7 @@ import (
 	"encoding/hex"
 	"fmt"
 	"strings"
+	"sync"
 
 	"github.com/biogo/hts/bgzf"
 	"github.com/biogo/hts/vsched"
@@ -94,18 +95,25 @@ type wEvent struct {
 }
 
 type wRun struct {
+	mu       sync.Mutex // the log is shared by the caller and the emitter goroutine (matters only when running free)
 	events   []wEvent
 	dev      *faultio.Writer
 	closeErr error
 	offered  int
 }
 
+func (r *wRun) log(e wEvent) {
+	r.mu.Lock()
+	r.events = append(r.events, e)
+	r.mu.Unlock()
+}
+
 func writerBody(pr wParams, r *wRun) func() {
 	return func() {
-		*r = wRun{}
+		r.events, r.dev, r.closeErr, r.offered = nil, nil, nil, 0
 		dev := &faultio.Writer{Hook: vsched.Yield, Fault: pr.Fault}
 		dev.After = func(w *faultio.Writer) {
-			r.events = append(r.events, wEvent{K: "dev", N: len(w.Data), Err: w.LastFailed})
+			r.log(wEvent{K: "dev", N: len(w.Data), Err: w.LastFailed})
 		}
 		r.dev = dev
 		w, err := bgzf.NewWriterLevel(dev, pr.Level, pr.WC)
@@ -113,21 +121,21 @@ func writerBody(pr wParams, r *wRun) func() {
 			panic(err)
 		}
 		for _, op := range pr.Script {
-			r.events = append(r.events, wEvent{K: "call", Op: op.Op, N: op.N})
+			r.log(wEvent{K: "call", Op: op.Op, N: op.N})
 			switch op.Op {
 			case "W":
 				n, err := w.Write(content(pr.Rand, r.offered, op.N))
 				r.offered += op.N
-				r.events = append(r.events, wEvent{K: "ret", Op: "W", N: n, Err: err != nil})
+				r.log(wEvent{K: "ret", Op: "W", N: n, Err: err != nil})
 			case "F":
 				err := w.Flush()
-				r.events = append(r.events, wEvent{K: "ret", Op: "F", Err: err != nil})
+				r.log(wEvent{K: "ret", Op: "F", Err: err != nil})
 			case "A":
 				err := w.Wait()
-				r.events = append(r.events, wEvent{K: "ret", Op: "A", Err: err != nil})
+				r.log(wEvent{K: "ret", Op: "A", Err: err != nil})
 			case "C":
 				r.closeErr = w.Close()
-				r.events = append(r.events, wEvent{K: "ret", Op: "C", Err: r.closeErr != nil})
+				r.log(wEvent{K: "ret", Op: "C", Err: r.closeErr != nil})
 			}
 		}
 	}
